@@ -62,7 +62,6 @@ EXEMPT: dict[tuple[str, str], str] = {
     ("Lexer.ignore_whitespace", "raise Exception"): "internal invariant start == pos, established on every path by the lexer typestate (C17.R1 checks no definitely-unsynced call)",
     ("Lexer.consume_whitespace", "raise Exception"): "internal invariant start == pos (C17.R1)",
     ("Lexer.ignore_line_space", "raise Exception"): "internal invariant start == pos (C17.R1)",
-    ("TranslateNode._format_message", "%-format of message_text"): "the block text is %-escaped by TranslateTag.validate_message_block and placeholders come from re_vars.findall of the same text; catalogue text is translator-authored",
     ("_parse_hex_digits", ".encode() on digits"): "digits are 4 characters already checked to be ASCII hex",
     ("_string_from_code_point", "chr(code_point)"): "code point comes from 4 hex digits / a decoded surrogate pair: <= 0x10FFFF",
     ("line_number", "raise ValueError"): "tokens of a parsed template start inside its non-empty source (C17): the loop always finds the line",
